@@ -10,7 +10,7 @@ EXPLANATION = (
     "Static, all-inputs over the reals: each directly implemented FromColorUnclamped body (resolved HIR of /repo's current tree) is "
     "normalised into a case tree of exact rational functions over uninterpreted transcendental atoms and compared with the published "
     "definition transcribed in rules/convrefs.py (CIE 15 xyY / L*a*b* / L*u*v* and polar forms, hexcone HSV/HSL/HWB, Oklab matrices, "
-    "transfer functions); literal tables (matrices, white points, knee constants) are checked by exact/decimal arithmetic against the "
+    "transfer functions); Rgb->Hsv/Hsl (scalar and mask-generic arms) are compared with the hexcone model on each of the 26 sign/ordering regions of (r,g,b); literal tables (matrices, white points, knee constants) are checked by exact/decimal arithmetic against the "
     "standards' values. Not decided: accuracy of powf/cbrt/atan2 and tolerance over the gamut."
 )
 
@@ -109,6 +109,9 @@ def run(F, rep, tier="quick", extra=None, only=None):
                 return Struct(rect, out)
             check_ref(rep, "ALG-REF", "conv:%s<-%s" % (rk, pk), S, b, exp_rect, names=["c"])
 
+    # ------------------------------------------------------------ Rgb -> Hsv / Hsl: both arms against the hexcone model, per ordering region
+    from .c17 import check_arms
+    check_arms(F, rep, tier)
     # ------------------------------------------------------------ same-space shortcuts (TypeId guards)
     from .c01 import check_guards
     check_guards(F, rep, S)
